@@ -112,7 +112,7 @@ struct Env {
     std::vector<Pkt> pk;
     std::vector<int> pend;      // stored while SM was on and not yet reported, in send order
     long myLastOut = 0;
-    long recvAll = 0, recvOn = 0, strayLegit = 0, strayPhantom = 0;  // stanzas injected since the last <enabled/>
+    long recvOn = 0, strayLegit = 0, strayPhantom = 0;  // stanzas injected since the last <enabled/>
     bool inAckOp = false;
     long curH = 0;
     std::string history;
@@ -175,13 +175,18 @@ struct Env {
         ev.push_back("?" + hex((const unsigned char *)d.constData(), std::min<size_t>(d.size(), 16)));
     }
 
-    // property: the reported h equals the number of message/presence/iq stanzas received on that session
+    // property: the reported h equals the number of message/presence/iq stanzas received on that session,
+    // i.e. while stream management was on since the last <enabled/> (recvOn). Judged on the implementation alone.
     void checkH(long k, const char *what)
     {
-        if (k != recvAll) { oracleFail(std::string("C09:h:wrong-") + what, history); return; }
-        if (strayPhantom > 0) { oraclePass()++; return; }  // stanzas injected with no connection at all: not a legitimate input
-        if (k != recvOn) oracleFail("C09:h:counts-stanzas-received-without-sm", history);
-        else oraclePass()++;
+        if (k == recvOn) { oraclePass()++; return; }
+        if (k == recvOn + strayLegit + strayPhantom) {
+            // the counter also ran while stream management was off
+            if (strayLegit > 0) oracleFail("C09:h:counts-stanzas-received-without-sm", history);  // legitimate history: session without SM
+            else oraclePass()++;  // only stanzas injected with no connection at all: not a legitimate input, not judged
+            return;
+        }
+        oracleFail(std::string("C09:h:wrong-") + what, history);
     }
 
     void onReport(int id, const SendResult &r)
@@ -276,7 +281,6 @@ struct Env {
     {
         bool stanza = k != 'x';
         if (stanza) {
-            recvAll++;
             if (sam().enabled()) recvOn++;
             else if (connected) strayLegit++;
             else strayPhantom++;
@@ -295,7 +299,7 @@ struct Env {
     {
         sam().resetCache();
         if (!pend.empty()) oracleFail("C09:report:lost", history); else oraclePass()++;
-        line("resetCache");
+        line("clearCache");
     }
     void checkResend(const std::vector<int> &expected, bool up)
     {
@@ -350,7 +354,7 @@ struct Env {
                     // fresh numbering 1..n in the original order
                     myLastOut = 0;
                     for (int id : pend) pk[id].seq = ++myLastOut;
-                    recvAll = recvOn = strayLegit = strayPhantom = 0;
+                    recvOn = strayLegit = strayPhantom = 0;
                     checkResend(expected, !forceDown);
                     line(std::string("enabledNew ") + ud(forceDown));
                 }
